@@ -90,6 +90,32 @@ pub fn boundary_event<V: Fv>(rng: &mut impl RngCore, norm: i64, k: usize, sign: 
     verify_event::<V>(&msg, &sig_bytes::<V>(&salt, &body), &pkb, tag)
 }
 
+/// Boundary triple for an ARBITRARY s2 (invertible mod q): s1 = e with ||e||^2 + ||s2||^2 = norm, the public key solved for.
+/// `raw` optionally gives the bit-level encoding of s2 (for bodies that fill the buffer to a chosen slack).
+pub fn general_boundary_event<V: Fv>(rng: &mut impl RngCore, s2: &[i16], norm: i64, twist: u64, tag: &str) -> Option<Value> {
+    let n = V::N;
+    let ns2: i64 = s2.iter().map(|&x| (x as i64) * (x as i64)).sum();
+    if norm - ns2 < 0 {
+        return None;
+    }
+    let mut salt = [0u8; 40];
+    rng.fill_bytes(&mut salt);
+    let msg = msg_of_len(rng, (twist % 60) as usize);
+    let c = verif::hash_to_point(&[salt.to_vec(), msg.clone()].concat(), n);
+    let e = vec_with_norm(n, norm - ns2, twist);
+    let h = crate::craft::pk_for_s1_general(&c, &e, s2)?;
+    let pkb = pk_bytes(&h, V::LOGN);
+    let mut bits = vec![];
+    for &v in s2 {
+        push_coeff(&mut bits, v as i32);
+    }
+    if bits.len() > 8 * (V::SIG_LEN - 41) {
+        return None;
+    }
+    let body = bits_to_bytes(&bits, V::SIG_LEN - 41);
+    Some(verify_event::<V>(&msg, &sig_bytes::<V>(&salt, &body), &pkb, tag))
+}
+
 /// s1 with entries at the centred-reduction edge: c - s2*h = +-6144 exactly in some places.
 pub fn edge_event<V: Fv>(rng: &mut impl RngCore, positive: bool, tag: &str) -> Value {
     let n = V::N;
@@ -245,6 +271,67 @@ pub fn c02_corpus<V: Fv>(seed: u64, thorough: bool, out: &mut Shards) {
                     twist += 1;
                     out.emit(boundary_event::<V>(&mut rng, V::BOUND + delta, k, sign, twist, "boundary"));
                 }
+            }
+        }
+    }
+    // --- boundary triples with general s2: one large coefficient (at the edges of 7, 11 and 13 bits: 127/128, 2047/2048, 5833
+    // = the largest that fits under the Falcon-512 bound) among small dense ones; a dense s2 of honest size; norms at the bound
+    // and one above.  A verifier that caps coefficient magnitudes, or sums the norm in a narrower type, departs here.
+    {
+        let mut tw = 100u64;
+        let bigs: Vec<i16> = if thorough { vec![127, 128, 255, 256, 2047, 2048, 4095, 4096, 5833] } else { vec![128, 2048, 5833] };
+        for &big in &bigs {
+            for &sign in &[1i16, -1] {
+                if !thorough && sign == -1 && big != 2048 {
+                    continue;
+                }
+                for delta in [0i64, 1] {
+                    for attempt in 0..4 {
+                        tw += 1;
+                        let mut s2: Vec<i16> = (0..n).map(|_| rng.gen_range(-3..=3)).collect();
+                        let pos = [0usize, n / 2, n - 1, 7][(tw as usize + attempt) % 4];
+                        s2[pos] = sign * big;
+                        if let Some(ev) = general_boundary_event::<V>(&mut rng, &s2, V::BOUND + delta, tw, "boundary-large-coefficient") {
+                            out.emit(ev);
+                            break;
+                        }
+                    }
+                }
+            }
+        }
+        for delta in [-1i64, 0, 1] {
+            for _ in 0..4 {
+                tw += 1;
+                // dense s2 of honest size (standard deviation about 165), about half of the bound
+                let s2: Vec<i16> = (0..n).map(|_| { let u: f64 = rng.gen::<f64>() + rng.gen::<f64>() + rng.gen::<f64>() + rng.gen::<f64>() - 2.0; (u * 285.0) as i16 }).collect();
+                if let Some(ev) = general_boundary_event::<V>(&mut rng, &s2, V::BOUND + delta, tw, "boundary-dense-s2") {
+                    out.emit(ev);
+                    break;
+                }
+            }
+        }
+        // bodies that fill the buffer to a chosen slack with the norm AT the bound (accepted iff well-formed): the spare bits are
+        // spread as runs of one over many coefficients (values +-128), so the norm stays far below the bound
+        let total = 8 * body_len;
+        for &slack in &[0usize, 1, 2, 7, 8, 9] {
+            for _ in 0..4 {
+                tw += 1;
+                let spare = total - 9 * n - slack;
+                let mut s2: Vec<i16> = (0..n).map(|i| if i < spare { if i % 2 == 0 { 128 } else { -128 } } else { rng.gen_range(-5..=5) }).collect();
+                s2.rotate_left((tw % 7) as usize);
+                if let Some(ev) = general_boundary_event::<V>(&mut rng, &s2, V::BOUND, tw, "tight-fit-at-bound") {
+                    out.emit(ev);
+                    break;
+                }
+            }
+        }
+        // norms at the edges of 32-bit types (all far above the bound: rejected by the specification)
+        let wide: Vec<i64> = if thorough { vec![(1 << 31) - 1, 1 << 31, (1 << 31) + V::BOUND, (1i64 << 32) - 1, 1i64 << 32, (1i64 << 32) + V::BOUND, 3 * (1i64 << 32) + 1] }
+                             else { vec![(1 << 31) + V::BOUND / 2, (1i64 << 32) + V::BOUND / 2] };
+        for w in wide {
+            if w < (n as i64) * 6000 * 6000 {
+                tw += 1;
+                out.emit(boundary_event::<V>(&mut rng, w, 1, 1, tw, "norm-at-32-bit-edge"));
             }
         }
     }
